@@ -55,7 +55,8 @@ def gen_steps(prog, wl, fl, nsteps, *, p_reset=0.1, p_coincide=0.3, ctl_bias=0.5
 
 class ProgRun:
     """Runs a program in the real simulator in lock-step with the reference; subclasses hook `after_step`."""
-    def __init__(self, case, stats, capture_stdout=False):
+    def __init__(self, case, stats, capture_stdout=False, compare_ref=True):
+        self.compare_ref = compare_ref
         self.case = case
         self.prog = case["prog"]
         self.stats = stats
@@ -86,6 +87,8 @@ class ProgRun:
             def compare(step):
                 got = [drv.get(s) & ((1 << len(s)) - 1) for s in self.B.sigs]
                 exp = ref.observe()
+                if not self.compare_ref:
+                    return got, []
                 if got != exp:
                     i = next(k for k in range(len(got)) if got[k] != exp[k])
                     raise Violation("signal_value", step, {"signal": i, "name": sigs[i]["name"], "role": sigs[i]["role"],
